@@ -204,7 +204,12 @@ def _decimal_as_text(decimal_value, precision=DEFAULT_PRECISION):
     assert isinstance(decimal_value, decimal.Decimal)
     assert precision >= 0
 
-    return "%.*f" % (precision, decimal_value)
+    try:
+        result = "%.*f" % (precision, decimal_value)
+    except OverflowError:
+        # For example with an absurd precision resulting from a limit like 1e-999999999999999999.
+        result = str(decimal_value)
+    return result
 
 
 class Range(object):
